@@ -19,6 +19,7 @@ Python sources mirrored (pinned in harness/c06.py):
   mesonbuild/dependencies/base.py      Dependency.__init__ (`name = f'dep{uuid4().int}'`)
   mesonbuild/depfile.py                DepFile.get_all_dependencies
   mesonbuild/modules/pkgconfig.py      DependenciesHelper.format_vreq, format_reqs
+  mesonbuild/dependencies/detect.py    get_dep_identifier (list-valued keywords);  build.py GeneratedList.depends
   mesonbuild/compilers/compilers.py    CompileResult, Compiler.cached_compile;  mixins/gnu.py GnuCompiler.has_arguments
 Core Lean only (no Mathlib): this file is compiled into the native driver.
 -/
@@ -330,6 +331,20 @@ def formatReqsUnsorted (reqs : List Str) (vreqs : Str → List Str) : Str :=
   join ", ".toList (reqs.flatMap fun name =>
     if (vreqs name).isEmpty then [name]
     else (vreqs name).map fun v => name ++ [' '] ++ formatVreq v)
+
+/-! ### the dependency cache key (`get_dep_identifier`) and `GeneratedList.depends` -/
+
+/-- a list-valued keyword of `dependency()` inside the cache key: `tuple(sorted(frozenset(value)))`
+(after 0cba8d8); the key is pickled into coredata.dat, so it has to be the same in every process -/
+def depIdentifierListValue (value : List Str) : List Str := sortedSet value
+
+/-- on record, not the code: `tuple(frozenset(value))` — `iter` is the order a process iterates the set in -/
+def depIdentifierListValueUnsorted (iter : List Str) : List Str := iter
+
+/-- `GeneratedList.depends` is an OrderedSet (after 089f6af): the targets in the order `process()` got them,
+first occurrence kept -/
+def genlistDepends (added : List Str) : List Str :=
+  added.foldl (fun acc a => if a ∈ acc then acc else acc ++ [a]) []
 
 /-! ### cached compiler checks: `Compiler.cached_compile`, `coredata.compiler_check_cache` -/
 
